@@ -957,9 +957,12 @@ class StateProjector:
             for m in state._paths[s].values():
                 ents |= set(m.values())
         recs = sorted((self.ent_rec(e) for e in ents), key=lambda r: r["id"])
-        oidx = sorted([s, self._n(self.oid[s], o), self._n(self.ent, id(e))] for s in (0, 1) for o, e in state._oids[s].items())
+        # a state loaded from storage also files id-less / path-less sides under the key None; those slots answer no
+        # lookup the engine makes and are left out on both sides of the comparison
+        oidx = sorted([s, self._n(self.oid[s], o), self._n(self.ent, id(e))] for s in (0, 1) for o, e in state._oids[s].items()
+                      if o is not None)
         pidx = sorted([s, self._p(s, p), self._n(self.oid[s], o), self._n(self.ent, id(e))]
-                      for s in (0, 1) for p, m in state._paths[s].items() for o, e in m.items())
+                      for s in (0, 1) for p, m in state._paths[s].items() for o, e in m.items() if p and o is not None)
         out = {"ents": recs, "oidx": oidx, "pidx": pidx,
                "pend": sorted(self._n(self.ent, id(e)) for e in state._changeset_storage),
                "dirty": sorted(self._n(self.ent, id(e)) for e in state._dirtyset), "rows": [], "reload": {"ok": 1}}
